@@ -31,3 +31,4 @@ META = dict(
          "reflection-based reading of view metadata. Sampled side: rank<=3 (4 sampled), extent<=4, step<=3, depth<=3, <=30 ops/program.",
     technique="Lean 4 proof (stride algebra by induction over rank and slice chains) + differential correspondence model vs real code",
 )
+READY = True
